@@ -428,9 +428,12 @@ func TestC16_RelicOutputs(t *testing.T) {
 	n := 0
 	rapid.Check(t, func(t *rapid.T) {
 		const test = "TestC16_RelicOutputs"
-		format := rapid.SampledFrom([]string{"pe", "msi", "ps", "jar", "cat", "cat"}).Draw(t, "format")
+		format := rapid.SampledFrom([]string{"pe", "msi", "ps", "jar", "cat", "cat", "macho"}).Draw(t, "format")
 		key := rapid.SampledFrom(outputKeys).Draw(t, "key")
 		h := rapid.SampledFrom([]crypto.Hash{crypto.SHA1, crypto.SHA256, crypto.SHA384, crypto.SHA512}).Draw(t, "hash")
+		if format == "macho" {
+			h = crypto.SHA256 // code directories take SHA-1 / SHA-256 only
+		}
 		arts.ExcludePEFewDirs = true
 		arts.ExcludeJAREdgeSpace = true
 		a := arts.Gen(t, format)
@@ -467,7 +470,8 @@ func TestC16_RelicOutputs(t *testing.T) {
 			fail(t, test, "verify", classes, p7, "independent verification of relic's SignerInfo failed: %v", err)
 		}
 		hoid, _ := der.OIDByHash(h)
-		if sd.SignerInfos[0].DigestAlgOID != hoid {
+		// (the digest of an Apple CMS follows the code directories, not --digest)
+		if format != "macho" && sd.SignerInfos[0].DigestAlgOID != hoid {
 			fail(t, test, "verify", classes, p7, "digest algorithm %s, requested %s", sd.SignerInfos[0].DigestAlgOID, hoid)
 		}
 		leaf, err := sd.FindCert(&sd.SignerInfos[0])
@@ -530,6 +534,12 @@ func extractPKCS7(format string, data []byte) (p7, detached []byte, err error) {
 		}
 	case "cat":
 		p7 = data
+	case "macho":
+		// Apple code signature: CMS over the first CodeDirectory blob (id-data, detached)
+		p7, detached, err = arts.MachOCMS(data)
+		if err != nil {
+			return nil, nil, err
+		}
 	}
 	if p7 == nil {
 		return nil, nil, fmt.Errorf("no PKCS#7 found")
